@@ -41,6 +41,8 @@ Splittable(i) ==
     [] k = "where" -> v \in SplitOpen_where [] k = "forall" -> v \in SplitOpen_forall [] k = "assoc" -> v \in SplitOpen_assoc
     [] OTHER -> FALSE
 IsSimple(i) == out[i].k = "s" /\ out[i].l = 0
+\* a simple statement that may be hidden behind a conditional-compilation sentinel: unlabelled, or with a label no DO refers to
+IsHideable(i) == out[i].k = "s" /\ (out[i].l = 0 \/ ~\E j \in 1..N : out[j].k = "dol" /\ out[j].l = out[i].l)
 Structural(i) == out[i].k \in (NOpeners \cup {"end", "endu", "enddo", "cont"})
 InJoin(i) == \E j \in 1..Len(ed) : ed[j].t = "join" /\ ed[j].pos \in {i, i - 1}
 HasEd(t, pos) == \E j \in 1..Len(ed) : ed[j].t = t /\ ed[j].pos = pos
@@ -97,8 +99,10 @@ AddInc ==
 
 AddSent ==
   /\ "sent" \in PKinds
-  /\ \E pos \in Ch({i \in 1..N : IsSimple(i)}), c \in {0, 1, 2, 3} :    \* 1 continued, 2/3 with a comment / blank line between
-       /\ IsSimple(pos) /\ ~HasEd("sent", pos)
+  \* c: 0 one line; 1 continued; 2/3 with a comment / blank line between; 4/5 the continuation line starts directly after the
+  \* sentinel with the statement text / with an ampersand
+  /\ \E pos \in Ch({i \in 1..N : IsHideable(i)}), c \in 0..5 :
+       /\ IsHideable(pos) /\ ~HasEd("sent", pos)
        /\ ~\E j \in 1..Len(ed) : ed[j].t = "cmt" /\ ed[j].pos = pos /\ ed[j].a \in {2, 3, 4}
        /\ (c >= 1 => Splittable(pos))
        /\ ed' = Append(ed, E("sent", pos, c, 0))
